@@ -120,6 +120,51 @@ def fam_geometry(seed, shard, nshards, n):
         yield f'front {enc_agent(s.agent)}', enc_pos(s.agent.front()), 'front'
 
 
+
+def fam_equality(seed, shard, nshards, n):
+    """Python `==` / `hash` of grid objects, grids and states (what C03/C16 mean by "equal" and "hashes
+    alike") against the model's `pyEq` / `hashKey`: pairs that are equal, that differ in one place, and
+    that differ only in what a Box contains (which equality ignores)"""
+    from harness.codec import dec_obj, enc_state
+    from gym_gridverse.utils.fast_copy import fast_copy
+
+    rng = random.Random(f'eq-{seed}-{shard}')
+    alphabet = list(gen.ALPHABET_CORE) + ['XF', 'XK1', 'XK2', 'XXF', 'XD01', 'D01', 'D11', 'D21', 'D02', 'K1', 'K2', 'E0', 'E3', 'T1', 'T2', 'B1', 'B4', 'O', 'W', 'F', 'N', 'H']
+    for k in range(n // nshards):
+        ta, tb = rng.choice(alphabet), rng.choice(alphabet)
+        if rng.random() < 0.3:
+            tb = ta
+        a, b = dec_obj(ta), dec_obj(tb)
+        key = (a.type_index(), a.state_index, a.color.value)
+        exp = f"{'T' if a == b else 'F'} {key[0]} {key[1]} {key[2]}"
+        if hash(a) != hash((a.type_index(), a.state_index, a.color)) or ((a == b) and hash(a) != hash(b)):
+            exp += ' HASH-MISMATCH'
+        yield f'objeq {enc_obj(a)} {enc_obj(b)}', exp, 'objeq-' + ('eq' if a == b else 'ne')
+        s1 = gen.random_state(rng, max_h=4, max_w=4, p_floor=0.4, p_wall_border=0.0)
+        s2 = fast_copy(s1)
+        r = rng.random()
+        h, w = s1.grid.shape.height, s1.grid.shape.width
+        if r < 0.35:
+            s2.grid[rng.randrange(h), rng.randrange(w)] = dec_obj(rng.choice(alphabet))
+        elif r < 0.5:
+            s2.agent.position = Position(rng.randrange(h), rng.randrange(w))
+        elif r < 0.6:
+            s2.agent.orientation = rng.choice(ORIENTS)
+        elif r < 0.7:
+            s2.agent.grid_object = dec_obj(rng.choice(alphabet))
+        elif r < 0.8:
+            s2 = gen.random_state(rng, max_h=4, max_w=4, p_floor=0.4, p_wall_border=0.0)
+        ge = s1.grid == s2.grid
+        se = s1 == s2
+        gexp = 'T' if ge else 'F'
+        if ge and hash(s1.grid) != hash(s2.grid):
+            gexp += ' HASH-MISMATCH'
+        sexp = 'T' if se else 'F'
+        if se and (hash(s1) != hash(s2) or hash(s1.agent) != hash(s2.agent)):
+            sexp += ' HASH-MISMATCH'
+        yield f'grideq {enc_grid(s1.grid)} {enc_grid(s2.grid)}', gexp, 'grideq-' + ('eq' if ge else 'ne')
+        yield f'stateeq {enc_state(s1)} {enc_state(s2)}', sexp, 'stateeq-' + ('eq' if se else 'ne')
+
 # ---------------------------------------------------------------------------------------------
 # transitions
 # ---------------------------------------------------------------------------------------------
